@@ -23,11 +23,12 @@ var c12Sched func(c *core.Ctx, nontriv *atomic.Int64) bool
 
 func init() {
 	core.Register(core.Check{ID: "C12", Level: "exploration", Run: func(c *core.Ctx) {
+		waitArch := background(func() { arch386Pass(c, "C12") })
 		runC12(c)
 		standalonePass(c, "C12", "standalone-powv2")
 		historyPass(c, "C12")
 		reentrancyPass(c, "C12")
-		arch386Pass(c, "C12")
+		waitArch()
 	}})
 }
 
